@@ -30,7 +30,7 @@ from rv import gen
 
 ID = "C10"
 LEVEL = "exploration"
-RULE = ("per element configuration (18 configurations of the 10 selective elements): A = "
+RULE = ("per element configuration (19 configurations of the 10 selective elements): A = "
         "ordered selection of 0..2 (quick) / 0..3 (thorough) values from the element's pool "
         "of selected values, B = ordered selection of 1..2 (quick) / 1..3 (thorough; size 3 "
         "sampled by seed) from the element's pool of unselected values (bare numbers, None, "
@@ -178,6 +178,14 @@ def _histhist(ctx_in_bins=False):
     return lena.structures.histogram([0, 1, 2], [a, b])
 
 
+def _dd(d):
+    import collections
+    out = collections.defaultdict(dict)
+    for k, v in d.items():
+        out[k] = _dd(v) if isinstance(v, dict) else v
+    return out
+
+
 def _graph():
     import lena.structures
     return lena.structures.graph([[0, 1], [2, 3]])
@@ -210,6 +218,8 @@ COMMON_B = {
     "pair_other_output": lambda env: (5, {"output": {"filetype": "zzz", "filename": "nofile",
                                                      "changed": True}}),
     "pair_list_data": lambda env: ([1, 2], {"foo": 1}),
+    # a context that is a dict subclass with __missing__: looking at it must not add keys
+    "pair_defaultdict": lambda env: (6, _dd({"foo": {"bar": 1}})),
     "foreign": lambda env: Foreign("bare"),
     "foreign_pair": lambda env: (Foreign("paired"), {"x": {"y": 2}}),
 }
@@ -295,6 +305,14 @@ SPECIFIC = {
                             "plot": {"name": "two"}}),
     "A_csv3": lambda env: ("csv text itself", {"output": {"filetype": "csv", "filepath": "rel.csv"},
                                                "plot": {"name": "three"}}),
+    # csv values that name their own template (the element's default one does not exist)
+    "A_csv_own1": lambda env: (os.path.join(env["work"], "one.csv"),
+                               {"output": {"filetype": "csv", "template": "t.tex",
+                                           "filepath": os.path.join(env["work"], "one.csv")},
+                                "plot": {"name": "one"}}),
+    "A_csv_own2": lambda env: ("csv text", {"output": {"filetype": "csv", "template": "t.tex",
+                                                       "filepath": "rel.csv", "changed": True},
+                                            "plot": {"name": "two"}}),
     "A_tex1": lambda env: (os.path.join(env["work"], "t1.tex"), {"output": {"filetype": "tex"}}),
     "A_tex2": lambda env: (os.path.join(env["work"], "t2.tex"),
                            {"output": {"filetype": "tex", "changed": True}, "k": 2}),
@@ -353,6 +371,10 @@ CONFIGS = {
                     ALL_COMMON + ["tex_value", "pdf_value", "hist_pair", "str_nowrite",
                                   "pair_template_key"],
                     ["t.tex"]),
+    "RenderLaTeX_absent_default": (["A_csv_own1", "A_csv_own2"],
+                                   ["int", "str", "pair_unrelated", "tex_value", "pdf_value",
+                                    "hist_pair", "foreign_pair", "pair_defaultdict"],
+                                   ["t.tex"]),
     "LaTeXToPDF": (["A_tex1", "A_tex2", "A_tex3"],
                    ALL_COMMON + ["pdf_value", "csv_value", "png_value", "hist_pair"],
                    ["t1.tex", "t2.tex", "t3.tex", "t3.pdf", "b.pdf"]),
@@ -416,6 +438,8 @@ def build_element(name, env):
         return lena.output.Write(out, verbose=False, overwrite=True)
     if name == "RenderLaTeX":
         return lena.output.RenderLaTeX("t.tex", template_dir=env["work"])
+    if name == "RenderLaTeX_absent_default":
+        return lena.output.RenderLaTeX("no_such_default.tex", template_dir=env["work"])
     if name == "LaTeXToPDF":
         return lena.output.LaTeXToPDF(verbose=0, create_command=env["stubs"].create_command)
     if name == "LaTeXToPDF_ow":
